@@ -14,11 +14,12 @@ type streamGen struct {
 	nextID  int
 	profile int  // 0 numbers, 1 scalars, 2 objects, 3 mixed
 	rich    bool // object roots carry items/a/b members (for selectors)
+	wild    bool // also numbers outside float64 (the schedule oracles leave their outcome open: C01 only)
 }
 
 func (g *streamGen) id() int { g.nextID++; return g.nextID }
 
-var strPieces = []string{"a", "b", "xy", "Q", " ", "é", "日本", "😀", `\"`, `\\`, `\/`, `\t`, `é`, `😀`, "z9", "_", "#", "'"}
+var strPieces = []string{"a", "b", "xy", "Q", " ", "é", "日本", "😀", `\"`, `\\`, `\/`, `\t`, `é`, `😀`, "z9", "_", "#", "'", "//", "/*", "*/", "http://h/p", `\u0041`, `\n`, `\"`, "]", "}", ","}
 
 func (g *streamGen) stringText() string {
 	n := g.t.Draw(4)
@@ -33,6 +34,9 @@ func (g *streamGen) stringText() string {
 }
 
 func (g *streamGen) numberText() string {
+	if g.wild && g.t.Chance(1, 12) {
+		return []string{"1e999", "-1e400", "1e-999", "123456789012345678901234567890", "0.1e+309", "-0", "1E400"}[g.t.Draw(7)]
+	}
 	id := g.id()
 	switch g.t.Weighted(12, 2, 2, 1, 1) {
 	case 0:
@@ -499,7 +503,7 @@ type streamGenOpts struct {
 var fileNames = []string{"a.json", "b.json", "dir/c.json", "a.json", "<x>"}
 
 func genStreamCase(t *Tape, o streamGenOpts) *StreamCase {
-	g := &streamGen{t: t}
+	g := &streamGen{t: t, wild: o.mode == "c01"}
 	g.profile = t.Weighted(3, 3, 3, 3)
 	useSel := o.selectors && t.Chance(1, 3)
 	g.rich = useSel || t.Chance(1, 6)
@@ -571,6 +575,10 @@ func genStreamCase(t *Tape, o streamGenOpts) *StreamCase {
 			c.Files[i].Sched = g.schedule(len(data), &ref)
 		}
 		c.Files[i].EOFWithData = t.Chance(1, 3)
+	}
+	if o.mode == "c01" && t.Chance(1, 5) {
+		kinds := []string{"epipe", "enospc", "short-write", "closed-pipe", "plain", "eof", "wrapped-epipe"}
+		c.WFault = &WFault{At: t.Draw(6), ErrKind: kinds[t.Draw(len(kinds))], Short: t.Chance(1, 3)}
 	}
 	return c
 }
